@@ -32,6 +32,8 @@ def main():
         patch = os.path.join(sd, "patch.diff")
     r = sh("git -C %s apply %s" % (WT, patch))
     if r.returncode:
+        r = sh("git -C %s apply --3way %s" % (WT, patch))      # /repo moved on (hook / fix commits) since the patch was made
+    if r.returncode:
         print("patch does not apply:", r.stdout)
         return 2
     env = dict(os.environ, VERIF_ALT_REPO=WT, VERIF_ALT_TAG=TAG)
